@@ -58,4 +58,8 @@ def loopM {σ ρ : Type} : Nat → (σ → Outcome (Ctl σ ρ)) → σ → Outco
     | .next s' => loopM n step s'
     | r => pure r
 
+/-- `r?` / `r.unwrap()` on an `io::Result<()>` represented by its success flag -/
+def gTry (okFlag : Bool) : Outcome Unit := if okFlag then ok () else fault (.err .other)
+def gUnwrap (okFlag : Bool) : Outcome Unit := if okFlag then ok () else fault (.panic .unwrap)
+
 end Sds.Generated
